@@ -470,6 +470,35 @@ pub fn source_bomb_recipe(r: &mut Rng, family: Family) -> Recipe {
     }
 }
 
+/// Target-type bombs: a constant whose TARGET type is squared until its bit width passes 2^63
+/// (the library saturates type widths at usize::MAX). The program is well typed, needs no
+/// witness data and is a few hundred bytes long; every width-derived quantity computed at
+/// redemption time (cells, frames, cost bounds) meets a saturated or overflowing number.
+pub fn target_bomb_recipe(r: &mut Rng, family: Family) -> Recipe {
+    let mut ops = match r.below(3) {
+        0 => vec![GOp::Word(r.range(0, 4) as u8, r.next_u64())],
+        1 => vec![GOp::Unit, GOp::InjL],
+        _ => vec![GOp::Unit, GOp::InjR],
+    };
+    let k = r.range(50, 72) as u8;
+    if r.bool() {
+        ops.push(GOp::Bomb(k));
+    } else {
+        // the same doubling as a chain of compositions x -> comp(x, pair(iden, iden)): every
+        // comp has a mid type twice as wide as the one before AND a child that already needs
+        // cells, so the per-node bounds add up widths whose sum passes 2^64
+        for _ in 0..k {
+            ops.extend([GOp::Iden, GOp::Iden, GOp::Pair, GOp::Comp]);
+        }
+    }
+    Recipe {
+        family,
+        ops,
+        close: Close::Early,
+        wit_seed: r.next_u64(),
+    }
+}
+
 /// Random recipe. `size` ~ number of ops.
 pub fn random_recipe(r: &mut Rng, family: Family, size: usize) -> Recipe {
     // swarm: per-recipe weights
